@@ -186,6 +186,29 @@ def sc_double(ident, n_lock, nsched, hold, fail_first):
                           latch_at=None, barrier=False, double=True))
 
 
+def sc_truncated(ident, n_lock, n_spawn):
+    """C05 / C06: a job process reads its script while another scheduler is rewriting it.  Both experiments are held
+    at the line that takes the job lock (neither marker nor pid file seen).  x0 goes on: its job process is frozen
+    as soon as it exists; x0 writes the pid file, unlocks and waits.  x1 then takes the lock and is held inside
+    PythonScriptBuilder.write, after open("wt") and before the text reaches the file; the frozen process is thawed:
+    the interpreter reads an empty script."""
+    funcs = ["aio_submit"] + KILLFUNCS
+    runs = [dict(sid="S0", slot=0, run=0, xpname="x0", pause=dict(n=n_lock, funcs=funcs, until="go0"),
+                 freeze=dict(n=n_spawn, funcs=funcs)),
+            dict(sid="S1", slot=1, run=0, xpname="x1", pause=dict(n=n_lock, funcs=funcs, until="go1"), trace_write=True,
+                 pause_at=dict(func="write", startswith='out.write("#!', until="go1b"))]
+    allp = {"all": [{"log": r"^S0 0 PAUSE "}, {"log": r"^S1 0 PAUSE "}]}
+    script = [dict(when={"t": 0}, do={"start": ["S0", 0]}), dict(when={"t": 0}, do={"start": ["S1", 0]}),
+              dict(when=allp, do={"touch": "go0"}),
+              dict(when={"all": [allp, {"log": r"^S0 0 R aio_run 1 "}]}, do={"touch": "go1"}),
+              dict(when={"log": r"^S1 0 PAUSE write "}, do={"signal_log": [r"FROZEN (\d+)", "CONT"]}),
+              dict(when={"any": [{"log": r"^S0 0 R aio_submit 1 "}, {"after": [4, 4.0]}]}, do={"touch": "go1b"}),
+              dict(when={"t": 30}, do={"signal_log": [r"FROZEN (\d+)", "CONT"]}, optional=True)]
+    return dict(id=ident, kind="one", tags=[1], timeout=50, files={"latch.all": ""}, runs=runs, script=script,
+                meta=dict(family="compete", nsched=2, delays=[], hold=0, fail_first=False, kill=None, latch_at=None,
+                          barrier=False, truncated=True))
+
+
 def sc_done_marker(ident, pre, nsched, concurrent, real_first):
     """C05 (b): the success marker is there (made by hand, or by a real first experiment); later
     experiments submit the job"""
